@@ -213,6 +213,7 @@ type BootArgs struct {
 	Flags
 	RootCN, SignCN         string
 	RootSerial, SignSerial int64 // 0 = command default
+	SignSerialBig          *big.Int // overrides SignSerial (serials beyond 64 bits)
 }
 
 // RotArgs are the rotate command's inputs.
@@ -220,6 +221,7 @@ type RotArgs struct {
 	Flags
 	SignCN         string
 	SerialOverride int64 // 0 = predecessor + 1
+	SerialBig      *big.Int // overrides SerialOverride (serials beyond 64 bits)
 }
 
 func (a *Authority) caFlags() []string {
@@ -365,7 +367,9 @@ func (a *Authority) Bootstrap(b BootArgs) (err error, crashed bool) {
 			if b.RootSerial != 0 {
 				args = append(args, "--root_key_serial", fmt.Sprint(b.RootSerial))
 			}
-			if b.SignSerial != 0 {
+			if b.SignSerialBig != nil {
+				args = append(args, "--initial_signing_key_serial", b.SignSerialBig.String())
+			} else if b.SignSerial != 0 {
 				args = append(args, "--initial_signing_key_serial", fmt.Sprint(b.SignSerial))
 			}
 			return a.runCLI(p, nil, args)
@@ -378,6 +382,9 @@ func (a *Authority) Bootstrap(b BootArgs) (err error, crashed bool) {
 			SigningKeyCommonName: orDefault(b.SignCN, "GCE-uefi-signer"),
 			RootKeySerial:        big.NewInt(orDefaultI(b.RootSerial, 1)), SigningKeySerial: big.NewInt(orDefaultI(b.SignSerial, 2)),
 			Now: a.Now}
+		if b.SignSerialBig != nil {
+			bc.SigningKeySerial = new(big.Int).Set(b.SignSerialBig)
+		}
 		ctx = a.kmsContext(rotate.NewBootstrapContext(ctx, bc), "bootstrap")
 		ctx, err = a.initComponents(ctx, p)
 		if err != nil {
@@ -409,7 +416,9 @@ func (a *Authority) Rotate(ra RotArgs) (err error, crashed bool) {
 			if ra.SignCN != "" {
 				args = append(args, "--signing_key_cn", ra.SignCN)
 			}
-			if ra.SerialOverride != 0 {
+			if ra.SerialBig != nil {
+				args = append(args, "--rotated_key_serial_override", ra.SerialBig.String())
+			} else if ra.SerialOverride != 0 {
 				args = append(args, "--rotated_key_serial_override", fmt.Sprint(ra.SerialOverride))
 			}
 			return a.runCLI(p, nil, args)
@@ -420,6 +429,9 @@ func (a *Authority) Rotate(ra RotArgs) (err error, crashed bool) {
 		}
 		skc := &rotate.SigningKeyContext{SigningKeyCommonName: orDefault(ra.SignCN, "GCE-uefi-signer"),
 			SigningKeySerial: big.NewInt(ra.SerialOverride), Now: a.Now}
+		if ra.SerialBig != nil {
+			skc.SigningKeySerial = new(big.Int).Set(ra.SerialBig)
+		}
 		ctx = a.kmsContext(rotate.NewSigningKeyContext(ctx, skc), "rotate")
 		ctx, err = a.initComponents(ctx, p)
 		if err != nil {
